@@ -12,7 +12,7 @@ for f in glob.glob(d + "/*"):
         shutil.copy(f, out)
 meta = {"breaks_property": prop, "needs_to_manifest": needs,
         "confirmed": "scratch worktree of /repo HEAD via /verif/confirm_seed.sh: demo passes without the patch, fails with it; existing suite (go test -vet=off -count=1 ./...) passes with it",
-        "checked_with": "/verif/try_seed.sh patch.diff %s (git apply in /repo, quick check, git checkout)" % prop,
+        "checked_with": "/verif/try_seed.sh patch.diff %s (git apply in /repo, quick check, git checkout) or /verif/try_seed2.sh (same against a scratch worktree through VERIF_REPO)" % prop,
         "caught_by": caught}
 json.dump(meta, open(out + "/meta.json", "w"), indent=1)
 print("kept", out)
